@@ -331,6 +331,79 @@ func runC01(r *engine.Run) {
 		c.Outcome(fmt.Sprintf("value-forms/form=%d", ch[4]))
 	})
 
+	// ---- a proprietary command that is registered only after frames carrying its CID have been seen
+	// (a gateway forwards whatever it receives): once registered, a frame with the command round-trips
+	// as that command. The registry is process-global: one worker, reset before and after each case.
+	r.PartWorkers("data/proprietary-registered-later", []string{"cid{80,a7,ff}", "direction:2", "size{1,2,5}", "carrier{FOpts, port-0 FRMPayload}"}, 3*2*3*2, 1, func(c *engine.Case) {
+		i := c.Index
+		cid := []byte{0x80, 0xA7, 0xFF}[i%3]
+		uplink := (i/3)%2 == 1
+		size := []int{1, 2, 5}[(i/6)%3]
+		inFRM := i/18 == 1
+		lorawan.VerifRegistryReset()
+		defer lorawan.VerifRegistryReset()
+		c.Eval()
+		f := spec.DataFrame{MType: 3, DevAddr: 0x01020304, FCnt: 5}
+		if uplink {
+			f.MType = 2
+		}
+		follower := spec.Example(uplink, 0x02)
+		cmds := []spec.Cmd{{CID: cid, Payload: fillBytes(size, 0x02)}, follower}
+		if inFRM {
+			f.HasPort, f.FPort, f.FRM = true, 0, spec.CmdBytes(cmds)
+		} else {
+			f.FOpts = spec.CmdBytes(cmds)
+		}
+		decodeCmds := func(wire []byte) ([]lorawan.Payload, error) {
+			var q lorawan.PHYPayload
+			if err := q.UnmarshalBinary(wire); err != nil {
+				return nil, err
+			}
+			mp := q.MACPayload.(*lorawan.MACPayload)
+			if inFRM {
+				err := q.DecodeFRMPayloadToMACCommands()
+				return mp.FRMPayload, err
+			}
+			err := q.DecodeFOptsToMACCommands()
+			return mp.FHDR.FOpts, err
+		}
+		raw := append(f.Msg(), 1, 2, 3, 4)
+		// 1. seen while the CID is unknown (whatever it decodes to; it must not panic)
+		decodeCmds(raw)
+		// 2. registered
+		if err := lorawan.RegisterProprietaryMACCommand(uplink, lorawan.CID(cid), size); err != nil {
+			c.Fail("data/proprietary-registered-later/registration-refused", fmt.Sprintf("RegisterProprietaryMACCommand(uplink=%v, %02x, %d): %v", uplink, cid, size, err), nil)
+			return
+		}
+		// 3. the frame built from the command values round-trips
+		var fo, fr []spec.Cmd
+		if inFRM {
+			fr = cmds
+		} else {
+			fo = cmds
+		}
+		p, err := buildFrame(f, fo, fr)
+		if err != nil {
+			c.Fail("harness/build", err.Error(), nil)
+			return
+		}
+		p.MIC = lorawan.MIC{1, 2, 3, 4}
+		wire, err := p.MarshalBinary()
+		if err != nil || !bytes.Equal(wire, raw) {
+			c.Fail("data/proprietary-registered-later/bytes-differ-from-spec", fmt.Sprintf("library %x (err %v), specification %x", wire, err, raw), nil)
+			return
+		}
+		c.NonTrivial()
+		got, err := decodeCmds(wire)
+		if err != nil {
+			c.Fail("data/proprietary-registered-later/commands-decode-error", fmt.Sprintf("frame %x after registering %02x (size %d, uplink=%v): %v", wire, cid, size, uplink, err), nil)
+			return
+		}
+		if msg := sameCmds(uplink, got, cmds); msg != "" {
+			c.Fail("data/proprietary-registered-later/commands-differ", fmt.Sprintf("frame %x, seen before and decoded after registering %02x (size %d, uplink=%v): %s", wire, cid, size, uplink, msg), nil)
+		}
+	})
+
 	// ---- MHDR packing
 	r.PartDims("mhdr", []string{"major:4", "mtype:8"}, 32, func(c *engine.Case) {
 		major, mt := byte(c.Index%4), byte(c.Index/4)
